@@ -3,6 +3,7 @@ package checks
 
 import (
 	"context"
+	"encoding/json"
 	"fmt"
 	"os"
 	"path/filepath"
@@ -285,6 +286,27 @@ func (e *Env) runTxn(t *sim.Task, tx *Txn, phase, attempt int) *TxnResult {
 	defer cancel()
 	s.Op("mark.begin", tx.Name)
 	r.BeginSeq = s.Seq()
+	if tx.Mode == "x" {
+		// administrative calls that take no transaction (store removal)
+		for i := range tx.Ops {
+			op := &tx.Ops[i]
+			or := OpResult{}
+			switch op.K {
+			case "rmstore":
+				err := infs.RemoveBtree(ctx, e.C.Stores[op.S].Name, []string{e.Folder}, nil, sop.InMemory)
+				or.OK = err == nil
+				or.Err = errStr(err)
+			default:
+				or.Err = "unknown admin op " + op.K
+			}
+			or.Seq = s.Seq()
+			r.Ops = append(r.Ops, or)
+			r.OpsDone++
+		}
+		r.Outcome = "committed"
+		r.EndSeq = s.Seq()
+		return r
+	}
 	trans, err := infs.NewTransaction(ctx, e.txOptions(tx.Mode, tx.MaxTime))
 	if err != nil {
 		r.BeginErr = err.Error()
@@ -311,6 +333,9 @@ func (e *Env) runTxn(t *sim.Task, tx *Txn, phase, attempt int) *TxnResult {
 		}
 		var b b3
 		var err error
+		if gerr := e.slotGuard(sp.Name); gerr != nil {
+			return nil, gerr
+		}
 		if create {
 			b, err = infs.NewBtree[int, string](ctx, storeOptions(sp), trans, nil)
 		} else {
@@ -635,6 +660,9 @@ func (e *Env) Observe(phase int, label string) Observation {
 		o.List = lst
 	}
 	for _, sp := range e.C.Stores {
+		if _, done := o.Stores[sp.Name]; done {
+			continue
+		}
 		d := Dump{}
 		exists := false
 		for _, n := range o.List {
@@ -671,6 +699,10 @@ func (e *Env) dumpStore(ctx context.Context, sp StoreSpec, dp *Dump) {
 	}
 	if err != nil {
 		d.Err = err.Error()
+		return
+	}
+	if gerr := e.slotGuard(sp.Name); gerr != nil {
+		d.Err = gerr.Error()
 		return
 	}
 	b, err := infs.OpenBtree[int, string](ctx, sp.Name, t2, nil)
@@ -762,6 +794,23 @@ func Execute(c *Case) (res *Result) {
 		res.Audit = AuditFolder(e.Folder)
 	}
 	return res
+}
+
+// slotGuard protects the harness process: a store info file whose slot_length got corrupted
+// to an absurd value makes btree.New allocate terabytes (fatal out-of-memory, unrecoverable).
+// The raw file is inspected first and such a store is reported instead of opened.
+func (e *Env) slotGuard(name string) error {
+	b, err := os.ReadFile(filepath.Join(e.Folder, name, "storeinfo.txt"))
+	if err != nil {
+		return nil
+	}
+	var info struct {
+		Slot int64 `json:"slot_length"`
+	}
+	if json.Unmarshal(b, &info) == nil && (info.Slot > 100000 || info.Slot < 0) {
+		return fmt.Errorf("store info corrupted on disk: slot_length=%d (opening it would allocate that many slots)", info.Slot)
+	}
+	return nil
 }
 
 // padVal pads a value token to n bytes (deterministically).
